@@ -7,6 +7,12 @@ run_fuzzy   : FuzzyFinder.find in match and fuzzy mode: every non-empty combinat
               reported with exactly its hits, most specific first, none without hits; never raises for the
               attribute names of the odML RDF model.
 
+Both also run over the *value-text dimension* (TEXT_FAMILIES): document sets whose attribute texts are families of
+mutually confusable values (leading/trailing/doubled/only whitespace, tabs, case variants, prefixes/suffixes, words
+of the query language, non-ASCII and normalisation twins, SPARQL/regex/format metacharacters) next to their
+stripped/case-folded twins; every requested value - hit, twin of a hit, absent twin - must select exactly the nodes
+carrying exactly that text, in the string and the dictionary form and in match and fuzzy mode.
+
 The oracle is an evaluation on the odml objects (private fields); predicate names are spelled out here and
 not taken from odml.format.
 """
@@ -16,6 +22,7 @@ import datetime as dt
 import itertools
 import random
 import re
+import unicodedata
 
 from rcc import harness as h
 
@@ -169,12 +176,18 @@ def export(docs):
 # queries
 # ---------------------------------------------------------------------------------------------
 
-def q_string(pairs):
+KIND_WORD_LONG = {'Doc': 'document', 'Sec': 'section', 'Prop': 'property'}
+
+
+def q_string(pairs, long_words=False):
+    """The documented one-line form 'doc(author:D. N. Adams) section(name:Stimulus) prop(name:Contrast, unit:%)':
+    a value is the text between the colon and the next ',' or ')', verbatim."""
     parts = []
+    words = KIND_WORD_LONG if long_words else KIND_WORD
     for k in KINDS:
         mine = [(a, v) for kk, a, v in pairs if kk == k]
         if mine:
-            parts.append('%s(%s)' % (KIND_WORD[k], ', '.join('%s:%s' % av for av in mine)))
+            parts.append('%s(%s)' % (words[k], ', '.join('%s:%s' % av for av in mine)))
     return ' '.join(parts)
 
 
@@ -185,13 +198,13 @@ def q_dict(pairs):
     return d
 
 
-def run_library(g, pairs, way):
+def run_library(g, pairs, way, long_words=False):
     """-> ('ret', set of tuples over the kinds involved) | ('exc', e)"""
     kinds = [k for k in KINDS if any(kk == k for kk, _, _ in pairs)]
 
     def go():
         if way == 'str':
-            q = QueryCreator().get_query(q_string(pairs), QueryParser())
+            q = QueryCreator().get_query(q_string(pairs, long_words), QueryParser())
         else:
             q = QueryCreator(q_dict(pairs)).get_query()
         rows = set()
@@ -202,10 +215,14 @@ def run_library(g, pairs, way):
     return h.call(go)
 
 
-def feature_of(pairs):
-    """Stable label of what is special about a query (see SPECIAL / escaping)."""
+def feature_of(pairs, fam=None):
+    """Stable label of what is special about a query (see SPECIAL / escaping); for the document sets of the
+    value-text dimension (fam = all texts of the family) the label of the most unusual requested text."""
     feats = []
-    attrs = [(k, a) for k, a, _ in pairs]
+    labels = [text_feature(v, fam) for _, _, v in pairs]
+    first = min(labels, key=TEXT_FEATURES.index)
+    if first in TEXT_FEATURES[:3]:
+        return first                      # whitespace in a requested text outweighs the kind of attribute
     for k, a, v in pairs:
         if a == 'id':
             feats.append('id-attribute')
@@ -216,11 +233,51 @@ def feature_of(pairs):
         if '\\' in v or '\n' in v:
             feats.append('value-needs-escaping(backslash|newline)')
     if not feats:
-        return 'plain'
+        return first
     return '+'.join(sorted(set(feats)))
 
 
-def gen_single_kind(idx, kind, rnd, max_n, per_combo):
+# labels of a requested text, most unusual first
+TEXT_FEATURES = ['value-with-tab', 'whitespace-only-value', 'value-with-edge-whitespace',
+                 'value-with-doubled-inner-blank', 'query-word-or-attribute-name-as-value', 'non-ascii-value',
+                 'sparql-regex-or-format-metacharacter-in-value', 'case-variant-of-another-value',
+                 'stripped-form-of-another-value', 'part-of-another-value', 'plain']
+QUERY_WORDS = {'FIND', 'HAVING', 'find', 'having', 'Search', 'doc', 'document', 'sec', 'section', 'prop', 'property',
+               'value', 'Doc', 'Sec', 'Prop'} | {a for k in ATTRS for a in ATTRS[k]} | \
+    {a for k in LINK_ATTRS for a in LINK_ATTRS[k]}
+META_CHARS = set('{}?$<>#\'[];*%|^&+~`@!=')
+
+
+def text_feature(v, fam=None):
+    """What makes the text v an unusual search value; fam: the texts it can be confused with (only given for the
+    document sets of the value-text dimension, the generic sets keep the label 'plain' for ordinary texts)."""
+    if '\t' in v:
+        return 'value-with-tab'
+    if v.strip() == '':
+        return 'whitespace-only-value'
+    if v != v.strip():
+        return 'value-with-edge-whitespace'
+    if fam is None:
+        return 'plain'
+    if '  ' in v:
+        return 'value-with-doubled-inner-blank'
+    if any(w in QUERY_WORDS for w in v.split()):
+        return 'query-word-or-attribute-name-as-value'
+    if any(ord(c) > 127 for c in v):
+        return 'non-ascii-value'
+    if set(v) & META_CHARS:
+        return 'sparql-regex-or-format-metacharacter-in-value'
+    others = [u for u in fam if u != v]
+    if any(u.casefold() == v.casefold() for u in others):
+        return 'case-variant-of-another-value'
+    if any(u.strip() == v for u in others):
+        return 'stripped-form-of-another-value'
+    if any(v in u for u in others):
+        return 'part-of-another-value'
+    return 'plain'
+
+
+def gen_single_kind(idx, kind, rnd, max_n, per_combo, thorough=False):
     """Queries over 1..max_n attributes of one kind: (variant, pairs)."""
     attrs = list(ATTRS[kind])
     nodes = idx.nodes[kind]
@@ -241,6 +298,12 @@ def gen_single_kind(idx, kind, rnd, max_n, per_combo):
                     continue
                 seen.add(vals)
                 yield 'hit', [(kind, a, v) for a, v in zip(combo, vals)]
+                if n == 1:
+                    # the same text with a blank added / in other letter case is another value
+                    twins = [vals[0] + ' ', ' ' + vals[0], vals[0].swapcase()]
+                    for t in (twins if thorough else [twins[(len(seen) + attrs.index(combo[0])) % 3]]):
+                        if t != vals[0]:
+                            yield 'twin-of-hit', [(kind, combo[0], t)]
             if n > 1:
                 a0 = rnd.choice(full)
                 others = [nd for nd in nodes if usable_q(nd['attrs'][combo[0]])]
@@ -254,7 +317,7 @@ def gen_single_kind(idx, kind, rnd, max_n, per_combo):
 
 def usable_q(text):
     """usable as a query value; values needing escaping are allowed by the statement (only , ( ) : " are not)"""
-    return text is not None and text != '' and not (set(text) & FORBIDDEN) and text == text.strip()
+    return text is not None and text != '' and not (set(text) & FORBIDDEN)
 
 
 def gen_cross_kind(idx, rnd, max_per_kind, budget):
@@ -306,18 +369,165 @@ def gen_cross_kind(idx, rnd, max_per_kind, budget):
     return out
 
 
+# ---------------------------------------------------------------------------------------------
+# value-text dimension: families of mutually confusable texts
+# ---------------------------------------------------------------------------------------------
+
+# (family, texts carried by the documents, twins that no document carries). All free of , ( ) : and double quote.
+TEXT_FAMILIES = [
+    ('edge-whitespace',
+     ['Stimulus', 'Stimulus ', ' Stimulus', ' Stimulus ', 'Stimulus  ', 'Stimulus\u00a0', 'Recording', ' %', '%'],
+     ['Recording ', ' Recording', 'Stimulus   ', '% ']),
+    ('blank-only-and-inner-blanks',
+     [' ', '  ', 'x', ' x', 'D. N. Adams', 'D.  N. Adams', 'D. N.  Adams', 'D.N. Adams'],
+     ['   ', 'D.  N.  Adams', 'x ', 'D. N.Adams']),
+    ('tab',
+     ['ab', 'a\tb', 'ab\t', '\tab', '\t', 'a\t\tb'],
+     ['b\ta']),
+    ('letter-case',
+     ['Stimulus', 'stimulus', 'STIMULUS', 'StimuluS', 'Gr\u00f6\u00dfe', 'gr\u00f6\u00dfe', 'GR\u00d6SSE',
+      'GR\u00d6\u00dfE'],
+     ['sTIMULUS', 'gr\u00f6sse']),
+    ('prefix-suffix',
+     ['Stim', 'Stimulus', 'Stimulus-2', 'ulus', 'mul', 'StimulusStimulus', 'Stimulus 2'],
+     ['Stimu', 'timulus', 'Stimulus-']),
+    ('query-words',
+     ['FIND', 'HAVING', 'sec', 'prop', 'doc', 'name', 'type', 'value', 'section', 'FIND sec HAVING x', 'sec name'],
+     ['find', 'Search', 'unit', 'HAVING x']),
+    ('non-ascii',
+     ['\u00e4', 'a\u0308', '\u00c4', '\u00b5m', '\u03bcm', '\u65e5\u672c', '\U0001d707V', '\u00e9 t\u00e9', 'a'],
+     ['ae', '\U0001d708V', 'um', '\u65e5']),
+    ('metacharacters',
+     ['{0}', '{}', '?s', '$s', '<x>', '#1', "it's", '[a]', 'a;b', 'a.*', '%s', '50 %', 'a|b', '^a$', '*', 'a'],
+     ['.*', '?', '{1}', '$']),
+]
+TEXT_ATTRS = {'Doc': ['author', 'version'], 'Sec': ['name', 'type', 'definition', 'reference'],
+              'Prop': ['name', 'definition', 'unit', 'reference', 'value_origin']}
+
+
+def text_docs(present, rnd):
+    """One small document per text of the family; every text is author of one Document and name of Sections and
+    Properties in several documents, the other attributes take the family texts in rotation (some left unset)."""
+    n = len(present)
+
+    def pick(x, p=0.75):
+        return present[x % n] if rnd.random() < p else None
+    docs = []
+    with h.quiet():
+        for i in range(n):
+            off = rnd.randrange(n)
+            doc = odml.Document(author=present[i], version=pick(i + 1 + off, 0.9))
+            for pos, j in enumerate([i, (i + 1) % n]):
+                sec = odml.Section(name=present[j], type=present[(i + j + off) % n], parent=doc,
+                                   definition=pick(j + 2), reference=pick(2 * j + i))
+                for k in (j, (j + 2) % n):
+                    odml.Property(name=present[k], values=[1], parent=sec, unit=pick(k + i + off),
+                                  definition=pick(k + 1), reference=pick(k + 3, 0.5),
+                                  value_origin=pick(2 * k + 1, 0.5))
+                if pos == 0:
+                    sub = odml.Section(name=present[(j + 3) % n], type=present[(j + off) % n], parent=sec,
+                                       definition=pick(j + 4))
+                    odml.Property(name=present[(j + 1) % n], values=['v'], parent=sub, unit=pick(j + off))
+            docs.append(doc)
+    return docs
+
+
+def twins_of(v, texts):
+    """The other texts of the family, the most easily confused first."""
+    def squeeze(t):
+        return ' '.join(t.split())
+
+    def rank(u):
+        if u.strip() == v.strip():
+            return 0
+        if u.casefold() == v.casefold():
+            return 1
+        if squeeze(u) == squeeze(v):
+            return 2
+        if unicodedata.normalize('NFKC', u) == unicodedata.normalize('NFKC', v):
+            return 3
+        if u in v or v in u:
+            return 4
+        return 5
+    return sorted((u for u in texts if u != v), key=lambda u: (rank(u), texts.index(u)))
+
+
+def gen_text_single(idx, kind, texts, rnd, quick, shift):
+    """Single-kind queries of the value-text dimension: (variant, pairs)."""
+    attrs = TEXT_ATTRS[kind]
+    # one attribute: every text of the family (carried by some node there: hit; otherwise: miss)
+    for ti, t in enumerate(texts):
+        for a in ([attrs[(ti + shift) % len(attrs)]] if quick else attrs):
+            yield 'one-attribute', [(kind, a, t)]
+    # two or three attributes of one node, then one of the values replaced by its most similar twins
+    nodes = list(idx.nodes[kind])
+    picks = rnd.sample(nodes, min(len(nodes), 2 if quick else 8))
+    for nd in picks:
+        have = [a for a in attrs if nd['attrs'][a] is not None]
+        rnd.shuffle(have)
+        combo = sorted(have[:rnd.choice([2, 2, 3])])
+        if len(combo) < 2:
+            continue
+        base = [(kind, a, nd['attrs'][a]) for a in combo]
+        yield 'all-of-one-node', base
+        j = rnd.randrange(len(combo))
+        for u in twins_of(base[j][2], texts)[:2 if quick else 5]:
+            yield 'one-value-replaced-by-twin', base[:j] + [(kind, combo[j], u)] + base[j + 1:]
+
+
+def chains(idx):
+    """(document, top-level section, property) triples related by direct containment."""
+    out = []
+    for p in idx.nodes['Prop']:
+        s = idx.by_uri[p['parent']]
+        if s['top']:
+            out.append({'Doc': idx.by_uri[s['parent']], 'Sec': s, 'Prop': p})
+    return out
+
+
+def gen_text_cross(idx, texts, rnd, quick):
+    """Cross-kind queries of the value-text dimension, one or two attributes per kind: (variant, pairs)."""
+    all_chains = chains(idx)
+    for ch in rnd.sample(all_chains, min(len(all_chains), 3 if quick else 10)):
+        kinds = rnd.choice([('Doc', 'Sec'), ('Sec', 'Prop'), ('Doc', 'Sec', 'Prop')])
+        base = []
+        for k in kinds:
+            have = [a for a in TEXT_ATTRS[k] if ch[k]['attrs'][a] is not None]
+            rnd.shuffle(have)
+            base += [(k, a, ch[k]['attrs'][a]) for a in sorted(have[:rnd.choice([1, 1, 2])])]
+        yield 'related', base
+        j = rnd.randrange(len(base))
+        for u in twins_of(base[j][2], texts)[:1 if quick else 3]:
+            yield 'one-value-replaced-by-twin', base[:j] + [(base[j][0], base[j][1], u)] + base[j + 1:]
+
+
+def text_sets(tier, seed):
+    """-> (family name, all texts of the family, documents carrying the 'present' texts, the family's random source)"""
+    for name, present, absent in TEXT_FAMILIES:
+        rnd = random.Random('text-%s-%d' % (name, seed))
+        yield name, list(present) + list(absent), text_docs(present, rnd), rnd
+
+
 def run_queries(tier, seed):
     col = h.Collector('C20.queries',
                       rule='document sets of 1-3 generated documents (<=3 levels, shared attribute values; every '
                            '3rd set has a harness document, every 4th has values with backslash/newline) exported '
                            'without sub-classing; single-kind queries: all 1..3-subsets of the literal attributes of '
-                           'Document/Section/Property (at most one of id/date/uncertainty) x {hit, mixed, absent} '
+                           'Document/Section/Property (at most one of id/date/uncertainty) x {hit, mixed, absent; '
+                           'single attribute also: the hit value with a blank added / in other letter case} '
                            'value choices; cross-kind queries Doc+Sec, Sec+Prop, Doc+Sec+Prop x {related, nested, '
                            'unrelated, absent}; each x {string, dict}; class = (kinds, attributes, variant, way, '
-                           'min(#expected rows,2))',
+                           'min(#expected rows,2)). Value-text dimension: per family of confusable texts (%s) one '
+                           'document per text, the texts rotating through author/version, Section name/type/'
+                           'definition/reference, Property name/definition/unit/reference/value_origin; queries: '
+                           'every text (carried or absent twin) x attribute (quick: one attribute per text and '
+                           'kind), 2-3 attributes of a node and the same with one value replaced by its most '
+                           'similar twins, cross-kind chains likewise; x {string with short or long kind word, '
+                           'dict}; class = (family, text label, kinds, attributes, variant, way, min(#rows,2))'
+                           % ', '.join(f[0] for f in TEXT_FAMILIES),
                       exhaustive=False)
     quick = tier == 'quick'
-    n_sets = 6 if quick else 24
+    n_sets = 5 if quick else 24
     rnd = random.Random(seed + 101)
     counts = {}
 
@@ -326,6 +536,43 @@ def run_queries(tier, seed):
         counts[key] = counts.get(key, 0) + 1
         if counts[key] <= 5:
             col.fail(check=check, cls=cls, witness=witness, detail=detail)
+
+    def check_query(set_id, n_docs, g, idx, variant, pairs, fam=None, fam_name=None, long_words=False):
+        expected = idx.evaluate(pairs)
+        if expected is None:
+            return
+        kinds = '+'.join(kk for kk in KINDS if any(x[0] == kk for x in pairs))
+        attrs = ','.join('%s.%s' % (x[0], x[1]) for x in pairs)
+        feature = feature_of(pairs, fam)
+        for way in ('str', 'dict'):
+            if way == 'str' and any('\n' in v for _, _, v in pairs):
+                continue    # the one-line query syntax is not claimed to carry line breaks
+            qs = q_string(pairs, long_words)
+            if fam is None:
+                col.case(cls_key=(kinds, attrs, variant, way, min(len(expected), 2)), sample='%s [%s]' % (qs, way))
+            else:
+                col.case(cls_key=(fam_name, feature, kinds, attrs, variant, way, min(len(expected), 2)),
+                         sample='%r [%s]' % (qs, way))
+            wit = {'set': set_id, 'tier': tier, 'seed': seed, 'query': qs if way == 'str' else
+                   repr(q_dict(pairs)), 'way': way, 'n_docs': n_docs}
+            st, rows = run_library(g, pairs, way, long_words)
+            if st == 'exc':
+                fail('C20.queries/never-raises', {'clause': 'never-raises', 'feature': feature}, wit,
+                     'building/running the query raised %s: %s' % (type(rows).__name__, str(rows)[:200]))
+                continue
+            missing = expected - rows
+            extra = rows - expected
+            if missing:
+                fail('C20.queries/none-missing', {'clause': 'none-missing', 'feature': feature}, wit,
+                     '%d of %d nodes carrying all requested values %r not returned, e.g. %r; attributes of it: %r'
+                     % (len(missing), len(expected), [v for _, _, v in pairs], sorted(missing)[0],
+                        idx.by_uri[sorted(missing)[0][-1]]['attrs']))
+            if extra:
+                bad = sorted(extra)[0]
+                fail('C20.queries/none-extra', {'clause': 'none-extra', 'feature': feature}, wit,
+                     '%d returned rows do not carry all requested values %r / are not directly contained, e.g. %r '
+                     'with attributes %r' % (len(extra), [v for _, _, v in pairs], bad,
+                                             idx.by_uri[bad[-1]]['attrs'] if bad[-1] in idx.by_uri else None))
 
     for k, docs in doc_sets(tier, seed, n_sets):
         g = export(docs)
@@ -338,7 +585,7 @@ def run_queries(tier, seed):
             max_n = 3
             if quick and kind == 'Prop':
                 max_n = 2
-            queries += list(gen_single_kind(idx, kind, rnd, max_n, 1 if quick else 2))
+            queries += list(gen_single_kind(idx, kind, rnd, max_n, 1 if quick else 2, thorough=not quick))
             if quick and kind == 'Prop':
                 trip = [c for c in itertools.combinations(list(ATTRS['Prop']), 3)]
                 for combo in rnd.sample(trip, 8):
@@ -350,40 +597,14 @@ def run_queries(tier, seed):
                         queries.append(('hit', [('Prop', a, nd['attrs'][a]) for a in combo]))
         queries += gen_cross_kind(idx, rnd, 2, 30 if quick else 120)
         for variant, pairs in queries:
-            expected = idx.evaluate(pairs)
-            if expected is None:
-                continue
             esc = any('\\' in v or '\n' in v for _, _, v in pairs)
             if esc and any(a in SPECIAL for _, a, _ in pairs):
                 continue        # keep failure classes apart: escaping is exercised with plain attributes
-            kinds = '+'.join(kk for kk in KINDS if any(x[0] == kk for x in pairs))
-            attrs = ','.join('%s.%s' % (x[0], x[1]) for x in pairs)
-            feature = feature_of(pairs)
-            for way in ('str', 'dict'):
-                if way == 'str' and any('\n' in v for _, _, v in pairs):
-                    continue    # the one-line query syntax is not claimed to carry line breaks
-                col.case(cls_key=(kinds, attrs, variant, way, min(len(expected), 2)),
-                         sample='%s [%s]' % (q_string(pairs), way))
-                wit = {'set': k, 'tier': tier, 'seed': seed, 'query': q_string(pairs) if way == 'str' else
-                       repr(q_dict(pairs)), 'way': way, 'n_docs': len(docs)}
-                st, rows = run_library(g, pairs, way)
-                if st == 'exc':
-                    fail('C20.queries/never-raises', {'clause': 'never-raises', 'feature': feature}, wit,
-                         'building/running the query raised %s: %s' % (type(rows).__name__, str(rows)[:200]))
-                    continue
-                missing = expected - rows
-                extra = rows - expected
-                if missing:
-                    fail('C20.queries/none-missing', {'clause': 'none-missing', 'feature': feature}, wit,
-                         '%d of %d nodes carrying all requested values not returned, e.g. %r; attributes of it: %r'
-                         % (len(missing), len(expected), sorted(missing)[0],
-                            idx.by_uri[sorted(missing)[0][-1]]['attrs']))
-                if extra:
-                    fail('C20.queries/none-extra', {'clause': 'none-extra', 'feature': feature}, wit,
-                         '%d returned rows do not carry all requested values / are not directly contained, e.g. %r'
-                         % (len(extra), sorted(extra)[0]))
+            check_query(k, len(docs), g, idx, variant, pairs)
         # ---- property values (documented 'value:[..]' parameter) on string valued properties
-        sprops = [p for p in idx.nodes['Prop'] if p['dtype'] == 'string' and p['values']]
+        sprops = [p for p in idx.nodes['Prop'] if p['dtype'] == 'string' and p['values']
+                  and isinstance(p['values'][0], str) and usable_q(p['values'][0]) and '\n' not in p['values'][0]
+                  and usable_q(p['attrs']['name'])]
         for p in sprops[:2 if quick else 6]:
             name = p['attrs']['name']
             want = {(q['uri'],) for q in idx.nodes['Prop']
@@ -409,6 +630,22 @@ def run_queries(tier, seed):
                     fail('C20.queries/exact-nodes', {'clause': 'exact-nodes', 'feature': 'property-values'}, wit,
                          'properties named %r having value %r: expected %d, returned %d' % (
                              name, p['values'][0], len(want), len(rows)))
+
+    # ---- value-text dimension
+    for f, (fam_name, texts, docs, trnd) in enumerate(text_sets(tier, seed)):
+        g = export(docs)
+        if g is None:
+            fail('C20.queries/export', {'clause': 'export', 'feature': 'raises'}, {'set': 'text:' + fam_name},
+                 'export raised')
+            continue
+        idx = Index(docs)
+        queries = []
+        for ki, kind in enumerate(KINDS):
+            queries += list(gen_text_single(idx, kind, texts, trnd, quick, seed + ki + f))
+        queries += list(gen_text_cross(idx, texts, trnd, quick))
+        for qi, (variant, pairs) in enumerate(queries):
+            check_query('text:' + fam_name, len(docs), g, idx, variant, pairs, fam=texts, fam_name=fam_name,
+                        long_words=(qi % 3 == 2))
     return col.result()
 
 
@@ -423,6 +660,20 @@ STRUCT = {'?d rdf:type odml:Document .', '?d odml:hasSection ?s .', '?s rdf:type
 LABEL = {'Document': 'd', 'Section': 's', 'Property': 'p'}
 
 
+ECHAR = {'t': '\t', 'n': '\n', 'r': '\r', 'b': '\b', 'f': '\f', '"': '"', "'": "'", '\\': '\\'}
+
+
+def sparql_unescape(text):
+    """Content of a SPARQL string literal -> the text it denotes (ECHAR and codepoint escapes of the SPARQL
+    grammar; every \\uXXXX stands for itself, as a SPARQL processor reads it)."""
+    def one(m):
+        e = m.group(1)
+        if len(e) > 1:
+            return chr(int(e[1:], 16))
+        return ECHAR.get(e, m.group(0))
+    return re.sub(r'\\(u[0-9a-fA-F]{4}|U[0-9a-fA-F]{8}|.)', one, text)
+
+
 def parse_output(out):
     """-> list of (frozenset of (kind, attr, value), set of row tuples over the kinds of the combination) in
     reported order, or raises ValueError when the text is not of the documented shape."""
@@ -435,15 +686,20 @@ def parse_output(out):
             raise ValueError('unterminated query')
         qtext, rest = b.split('}\n', 1)
         pairs = set()
-        for line in qtext.splitlines():
+        used = set()
+        for line in qtext.split('\n'):         # not splitlines(): a requested text may hold other separators
+            if line == '':
+                continue
             if line in STRUCT:
+                used |= set(re.findall(r'\?([dsp]) ', line))
                 continue
             m = LINE.match(line)
             if not m or (m.group(1), m.group(2)) not in PRED2ATTR:
                 raise ValueError('unexpected query line %r' % line)
             k, a = PRED2ATTR[(m.group(1), m.group(2))]
-            pairs.add((k, a, m.group(3)))
-        variables = [v for v in 'dsp' if ('?%s ' % v) in qtext]
+            pairs.add((k, a, sparql_unescape(m.group(3))))
+            used.add(m.group(1))
+        variables = [v for v in 'dsp' if v in used]
         lines = [x for x in rest.split('\n') if x]
         if len(lines) % len(variables):
             raise ValueError('row lines %d not a multiple of %d variables' % (len(lines), len(variables)))
@@ -467,17 +723,19 @@ def subsets(pairs):
             yield c
 
 
-def combo_feature(combo):
+def combo_feature(combo, fam=None):
+    f = feature_of(combo, fam)
+    if f in TEXT_FEATURES[:3]:
+        return f
     names = {}
     for k, a, _ in combo:
         names.setdefault(a, set()).add(k)
     if any(len(ks) > 1 for ks in names.values()):
         return 'same-attribute-name-in-several-kinds'
-    f = feature_of(combo)
     return f
 
 
-def check_find(idx, pairs, out):
+def check_find(idx, pairs, out, fam=None):
     """Yield (clause, feature, detail) comparing a find() output with the expected report for `pairs`."""
     try:
         reported = parse_output(out)
@@ -491,8 +749,15 @@ def check_find(idx, pairs, out):
     rep = {}
     for c, rows in reported:
         if not c <= given:
-            yield 'only-given-combinations', 'spurious', 'reported combination %r is not made of the given pairs' % (
-                sorted(c),)
+            how = 'spurious'
+            for kk, a, v in c - given:
+                near = [gv for gk, ga, gv in given if (gk, ga) == (kk, a)]
+                if any(gv.strip() == v.strip() for gv in near):
+                    how = 'given-value-altered(whitespace)'
+                elif any(gv.casefold() == v.casefold() for gv in near):
+                    how = 'given-value-altered(letter-case)'
+            yield 'only-given-combinations', how, 'reported combination %r is not made of the given pairs %r' % (
+                sorted(c), sorted(given))
             continue
         rep.setdefault(c, set()).update(rows)
         if not rows:
@@ -503,13 +768,13 @@ def check_find(idx, pairs, out):
             continue
         key = frozenset(combo)
         if expected and key not in rep:
-            yield 'every-combination-with-hits', combo_feature(combo), \
+            yield 'every-combination-with-hits', combo_feature(combo, fam), \
                 'combination %r has %d hits but is not reported' % (sorted(combo), len(expected))
         elif not expected and key in rep:
-            yield 'no-combination-without-hits', combo_feature(combo), \
+            yield 'no-combination-without-hits', combo_feature(combo, fam), \
                 'combination %r has no hit but is reported with %r' % (sorted(combo), sorted(rep[key])[:2])
         elif expected and rep[key] != expected:
-            yield 'combination-exact-nodes', combo_feature(combo), \
+            yield 'combination-exact-nodes', combo_feature(combo, fam), \
                 'combination %r: expected %d rows, reported %d' % (sorted(combo), len(expected), len(rep[key]))
 
 
@@ -537,10 +802,16 @@ def run_fuzzy(tier, seed):
                            'absent value); fuzzy mode: 1..3 attributes x 1..2 terms; each x {string, dict}; all '
                            'non-empty sub-combinations evaluated on the source documents; plus every attribute '
                            'name of the RDF model once per entry point for "never raises"; class = (mode, way, kinds, '
-                           'attributes, #pairs, min(#combinations with hits,3))',
+                           'attributes, #pairs, min(#combinations with hits,3)). Value-text dimension (document sets '
+                           'of the text families of C20.queries): match mode with 1-3 pairs of a containment chain, '
+                           'one value replaced by its most similar twin in every second search; fuzzy mode with '
+                           '1-2 attributes and a text of the family alone or together with its most similar twin '
+                           '(thorough: every text); class additionally (family, text label). A fuzzy search given '
+                           'as STRING is only evaluated for terms without leading/trailing whitespace (the term '
+                           'list "a, b" cannot express them)',
                       exhaustive=False)
     quick = tier == 'quick'
-    n_sets = 5 if quick else 16
+    n_sets = 4 if quick else 16
     per_set = 12 if quick else 40
     rnd = random.Random(seed + 202)
     counts = {}
@@ -555,6 +826,95 @@ def run_fuzzy(tier, seed):
 
     def clean(v):
         return usable_q(v) and '\\' not in v and '\n' not in v
+
+    def do_match(set_id, g, idx, pairs, fam=None, fam_name=None, long_words=False):
+        n_hits = sum(1 for c in subsets(pairs) if idx.evaluate(c))
+        for way in ('str', 'dict'):
+            qs = q_string(pairs, long_words)
+            key = ('match', way, tuple(sorted({x[0] for x in pairs})), tuple((x[0], x[1]) for x in pairs),
+                   len(pairs), min(n_hits, 3))
+            if fam is not None:
+                key += (fam_name, feature_of(pairs, fam))
+            col.case(cls_key=key, sample='match %s [%s]' % (qs if fam is None else repr(qs), way))
+            wit = {'set': set_id, 'tier': tier, 'seed': seed, 'mode': 'match', 'way': way,
+                   'query': qs if way == 'str' else repr(q_dict(pairs))}
+            if way == 'str':
+                st, out = h.call(lambda: FuzzyFinder().find(mode='match', graph=g, q_str=qs))
+            else:
+                st, out = h.call(lambda: FuzzyFinder().find(mode='match', graph=g, q_params=q_dict(pairs)))
+            if st == 'exc':
+                fail('C20.fuzzy/never-raises', {'clause': 'never-raises', 'feature': 'match'}, wit,
+                     'find raised %r' % (out,))
+                continue
+            seen = set()
+            for clause, feature, detail in check_find(idx, pairs, out, fam):
+                if (clause, feature) not in seen:
+                    seen.add((clause, feature))
+                    fail('C20.fuzzy/%s' % clause, {'clause': clause, 'feature': feature}, wit, detail)
+
+    def do_fuzzy(set_id, g, idx, attrs, terms, fam=None, fam_name=None):
+        pairs = sorted((kk, a, t) for kk, a in attrs for t in terms)
+        n_hits = sum(1 for c in subsets(pairs) if idx.evaluate(c))
+        for way in ('str', 'dict'):
+            if way == 'str' and any(t != t.strip() or not t.strip() for t in terms):
+                continue    # not expressible: the terms of 'HAVING a, b' are separated by comma and blank
+            key = ('fuzzy', way, tuple(sorted({x[0] for x in attrs})), tuple(attrs), len(pairs), min(n_hits, 3))
+            if fam is not None:
+                key += (fam_name, feature_of(pairs, fam))
+            fs = fuzzy_string(attrs, terms)
+            col.case(cls_key=key, sample='%s [%s]' % (fs if fam is None else repr(fs), way))
+            wit = {'set': set_id, 'tier': tier, 'seed': seed, 'mode': 'fuzzy', 'way': way,
+                   'query': fs if way == 'str' else repr(fuzzy_dict(attrs, terms))}
+            if way == 'str':
+                st, out = h.call(lambda: FuzzyFinder().find(mode='fuzzy', graph=g, q_str=fs))
+            else:
+                st, out = h.call(lambda: FuzzyFinder().find(mode='fuzzy', graph=g,
+                                                            q_params=fuzzy_dict(attrs, terms)))
+            if st == 'exc':
+                fail('C20.fuzzy/never-raises', {'clause': 'never-raises', 'feature': 'fuzzy'}, wit,
+                     'find raised %r' % (out,))
+                continue
+            seen = set()
+            for clause, feature, detail in check_find(idx, pairs, out, fam):
+                if (clause, feature) not in seen:
+                    seen.add((clause, feature))
+                    fail('C20.fuzzy/%s' % clause, {'clause': clause, 'feature': feature}, wit, detail)
+
+    # ---------------------------------------------------------------------- value-text dimension
+    for f, (fam_name, texts, docs, trnd) in enumerate(text_sets(tier, seed)):
+        g = export(docs)
+        if g is None:
+            continue
+        idx = Index(docs)
+        all_chains = chains(idx)
+        for j in range(4 if quick else 14):
+            ch = trnd.choice(all_chains)
+            kinds = trnd.choice([('Sec',), ('Prop',), ('Doc', 'Sec'), ('Sec', 'Prop'), ('Doc', 'Sec', 'Prop')])
+            cand = [(kk, a, ch[kk]['attrs'][a]) for kk in kinds for a in TEXT_ATTRS[kk]
+                    if ch[kk]['attrs'][a] is not None]
+            trnd.shuffle(cand)
+            pairs = cand[:trnd.randint(1, 3)]
+            if j % 2 == 1:
+                i = trnd.randrange(len(pairs))
+                pairs[i] = (pairs[i][0], pairs[i][1], twins_of(pairs[i][2], texts)[0])
+            do_match('text:' + fam_name, g, idx, sorted(set(pairs)), fam=texts, fam_name=fam_name,
+                     long_words=(j % 4 == 2))
+        order = list(range(len(texts)))
+        if quick:
+            order = [(seed * 3 + f + i * 2) % len(texts) for i in range(3)]
+        for j, ti in enumerate(order):
+            kinds = trnd.choice([('Sec',), ('Prop',), ('Doc', 'Sec'), ('Sec', 'Prop')])
+            attrs = []
+            for kk in kinds:
+                attrs += [(kk, a) for a in trnd.sample(TEXT_ATTRS[kk], trnd.choice([1, 1, 2]))]
+            attrs = sorted(set(attrs))[:2]
+            terms = [texts[ti]]
+            if j % 2 == 0:
+                # the most similar twin that can stand next to it in both parameter forms, else the most similar
+                tw = twins_of(texts[ti], texts)
+                ok = [u for u in tw if u == u.strip()] if texts[ti] == texts[ti].strip() else []
+                terms.append((ok or tw)[0])
+            do_fuzzy('text:' + fam_name, g, idx, attrs, terms, fam=texts, fam_name=fam_name)
 
     for k, docs in doc_sets(tier, seed + 1, n_sets):
         g = export(docs)
@@ -600,27 +960,12 @@ def run_fuzzy(tier, seed):
             if j % 4 == 1:
                 i = rnd.randrange(len(pairs))
                 pairs[i] = (pairs[i][0], pairs[i][1], ABSENT)
+            elif j % 4 == 3:
+                # a value of the documents with a blank added: another text, mostly a miss
+                i = rnd.randrange(len(pairs))
+                pairs[i] = (pairs[i][0], pairs[i][1], rnd.choice([pairs[i][2] + ' ', ' ' + pairs[i][2]]))
             pairs = sorted(set(pairs))
-            n_hits = sum(1 for c in subsets(pairs) if idx.evaluate(c))
-            for way in ('str', 'dict'):
-                col.case(cls_key=('match', way, tuple(sorted({x[0] for x in pairs})),
-                                  tuple((x[0], x[1]) for x in pairs), len(pairs), min(n_hits, 3)),
-                         sample='match %s [%s]' % (q_string(pairs), way))
-                wit = {'set': k, 'tier': tier, 'seed': seed, 'mode': 'match', 'way': way,
-                       'query': q_string(pairs) if way == 'str' else repr(q_dict(pairs))}
-                if way == 'str':
-                    st, out = h.call(lambda: FuzzyFinder().find(mode='match', graph=g, q_str=q_string(pairs)))
-                else:
-                    st, out = h.call(lambda: FuzzyFinder().find(mode='match', graph=g, q_params=q_dict(pairs)))
-                if st == 'exc':
-                    fail('C20.fuzzy/never-raises', {'clause': 'never-raises', 'feature': 'match'}, wit,
-                         'find raised %r' % (out,))
-                    continue
-                seen = set()
-                for clause, feature, detail in check_find(idx, pairs, out):
-                    if (clause, feature) not in seen:
-                        seen.add((clause, feature))
-                        fail('C20.fuzzy/%s' % clause, {'clause': clause, 'feature': feature}, wit, detail)
+            do_match(k, g, idx, pairs)
         # ------------------------------------------------------------------ fuzzy mode
         for j in range(per_set):
             kinds = rnd.choice([('Sec',), ('Prop',), ('Doc', 'Sec'), ('Sec', 'Prop'), ('Sec', 'Prop')])
@@ -634,29 +979,7 @@ def run_fuzzy(tier, seed):
             terms = rnd.sample(pool, min(len(pool), rnd.choice([1, 2])))
             if j % 5 == 4:
                 terms[-1] = ABSENT
-            pairs = sorted((kk, a, t) for kk, a in attrs for t in terms)
-            n_hits = sum(1 for c in subsets(pairs) if idx.evaluate(c))
-            for way in ('str', 'dict'):
-                col.case(cls_key=('fuzzy', way, tuple(sorted({x[0] for x in attrs})), tuple(attrs), len(pairs),
-                                  min(n_hits, 3)),
-                         sample='%s [%s]' % (fuzzy_string(attrs, terms), way))
-                wit = {'set': k, 'tier': tier, 'seed': seed, 'mode': 'fuzzy', 'way': way,
-                       'query': fuzzy_string(attrs, terms) if way == 'str' else repr(fuzzy_dict(attrs, terms))}
-                if way == 'str':
-                    st, out = h.call(lambda: FuzzyFinder().find(mode='fuzzy', graph=g,
-                                                                q_str=fuzzy_string(attrs, terms)))
-                else:
-                    st, out = h.call(lambda: FuzzyFinder().find(mode='fuzzy', graph=g,
-                                                                q_params=fuzzy_dict(attrs, terms)))
-                if st == 'exc':
-                    fail('C20.fuzzy/never-raises', {'clause': 'never-raises', 'feature': 'fuzzy'}, wit,
-                         'find raised %r' % (out,))
-                    continue
-                seen = set()
-                for clause, feature, detail in check_find(idx, pairs, out):
-                    if (clause, feature) not in seen:
-                        seen.add((clause, feature))
-                        fail('C20.fuzzy/%s' % clause, {'clause': clause, 'feature': feature}, wit, detail)
+            do_fuzzy(k, g, idx, attrs, terms)
         # ------------------------------------------------------------------ never raises, every model attribute
         if k == 0:
             for kk in KINDS:
